@@ -208,7 +208,7 @@ def _f(x):
 
 def run(ctx):
     rng, tier = ctx["rng"], ctx["tier"]
-    per = 250 if tier == "quick" else 6000
+    per = int((250 if tier == "quick" else 6000) * ctx.get("mult", 1))
     cases = []
     for ty in TYPES:
         vs = values(ty, rng, 12 if tier == "quick" else 40)
